@@ -301,6 +301,7 @@ PROPS['C16'].setdefault('tie', []).append('store_step')
 PROPS['C12'].setdefault('tie', []).append('qw_loop')
 # mempool/src/batch_maker.rs, the select! arms of run and seal (tools/skelbm.py -> coq/GenBM.v; equal to BatchMakerDefs.bstep)
 PROPS['C11'].setdefault('tie', []).append('bm_step')
+PROPS['C12'].setdefault('tie', []).append('bm_step')    # C12: the handlers forwarded to the quorum waiter are those of the broadcast of the same batch
 PROPS['C16']['extra_props'] = PROPS['C16'].get('extra_props', []) + ['StoreGen']   # C16 stated about the regenerated loop itself
 PROPS['C16']['vo'] = PROPS['C16']['vo'] + ['Props/StoreGen.vo']
 for _f, _ps in TIE.items():
